@@ -206,6 +206,9 @@ func (c *Ctx) Preamble() string {
 	}
 	for _, l := range lits {
 		sb.WriteString(fmt.Sprintf("(assert (= (strlen %s) %d))\n", l.t.Op, len(l.k)))
+		if l.k == "" {
+			sb.WriteString(fmt.Sprintf("(assert (forall ((s Str)) (! (=> (= (strlen s) 0) (= s %s)) :pattern ((strlen s)))))\n", l.t.Op))
+		}
 	}
 	var fl []kv
 	for k, t := range c.fltLits {
